@@ -711,9 +711,27 @@ func exprKey(f Fact, v ssa.Value) string {
 
 var successCache = map[string][]Fact{}
 
+// resetAnalysisCaches drops every memo that is keyed by (or holds) SSA objects of a loaded program. The thorough tier
+// analyses many programs in one process — the tree, then each mutant and each behaviour-preserving variant: a memo that
+// survives from one program to the next keeps that whole program alive (tens of GB over a few hundred variants), and the
+// one memo keyed by function *name* (successCache) would answer for the next program with the previous program's values.
+func resetAnalysisCaches() {
+	successCache = map[string][]Fact{}
+	factCache = map[*ssa.BasicBlock][]Fact{}
+	factBusy = map[*ssa.BasicBlock]bool{}
+	baseBusy = map[*ssa.BasicBlock]bool{}
+	entryCache = map[*ssa.Function][]Fact{}
+	closureCache = map[*ssa.Function][]*ssa.MakeClosure{}
+	callSiteIndex = nil
+	addressTaken = nil
+	callSiteProg = nil
+	wipesParamMemo = map[*ssa.Function]int{}
+	assumedFacts = nil
+}
+
 // returnFacts: facts common to all returns of h selected by sel (in h's own frame).
 func returnFacts(h *ssa.Function, key string, sel func(*ssa.Return) bool) []Fact {
-	ck := h.String() + "/" + key
+	ck := fmt.Sprintf("%p:", h.Prog) + h.String() + "/" + key // (U1 and U2 both contain the SDK's packages)
 	if r, ok := successCache[ck]; ok {
 		return r
 	}
